@@ -33,6 +33,7 @@ import MudModel.Step
 import MudModel.AStep
 namespace Mud.StepThm
 open Mud Matrix
+open scoped ComplexOrder
 
 variable {N n : ℕ}
 
@@ -420,5 +421,37 @@ theorem shEnd_last (m : Fin n → ℝ) (dt : ℝ) (e : Elec ℝ N n) (s : SH ℝ
       simp only [shRun, shEnd] at this ⊢
       rw [List.getLast_cons (by simp)]
       exact this
+
+/-! ### C02 along A-FSSH runs -/
+
+/-- the pure state written by a collapse is a valid electronic state -/
+theorem pureState_Valid (k : Fin N) : C02.Valid (toM (pureState (α := ℝ) k)) := by
+  obtain ⟨hid, hh, htr⟩ := pureState_valid (N := N) k
+  refine ⟨hh, htr, ?_⟩
+  have e : toM (pureState (α := ℝ) k) = (toM (pureState (α := ℝ) k))ᴴ * toM (pureState k) := by
+    rw [hh.eq, hid]
+  rw [e]
+  exact Matrix.posSemidef_conjTranspose_mul_self _
+
+/-- **the density matrix along a whole A-FSSH run** (hops and collapses included) is a valid state at every logged step,
+    provided LAPACK's eigenvector matrices of `propagate_electronics` are unitary -/
+theorem afRun_rho_valid (m : Fin n → ℝ) (dt : ℝ) (ePrev eLast : ElecA ℝ N n) (a : AF ℝ N n) (inps : List (AStepIn ℝ N n))
+    (hC : ∀ inp ∈ inps, (toM inp.coeff)ᴴ * toM inp.coeff = 1) (h : C02.Valid (toM a.s.rho)) :
+    ∀ r ∈ afRun m dt ePrev eLast a inps, C02.Valid (toM r.1.s.rho) := by
+  induction inps generalizing ePrev eLast a with
+  | nil => intro r hr; simp [afRun] at hr
+  | cons inp rest ih =>
+    intro r hr
+    have hstep : C02.Valid (toM (afStep m dt ePrev eLast inp a).1.s.rho) := by
+      have hr' := afStep_rho m dt ePrev eLast inp a
+      by_cases he : (afStep m dt ePrev eLast inp a).2.1.2 = []
+      · rw [hr'.2 he]
+        exact (C02.expStep_valid inp.diags inp.coeff a.s.rho dt (hC inp List.mem_cons_self) h).1
+      · rw [(hr'.1 he).1]
+        exact pureState_Valid _
+    simp only [afRun, List.mem_cons] at hr
+    rcases hr with hr | hr
+    · subst hr; exact hstep
+    · exact ih eLast inp.elec _ (fun i hi => hC i (List.mem_cons_of_mem _ hi)) hstep r hr
 
 end Mud.StepThm
